@@ -342,16 +342,18 @@ fn one_byte_source_scenario(comp: &[u8], data: &[u8], c: u64) -> Option<String> 
     rd.seek(SeekFrom::Start(from)).ok()?;
     let mut out = Vec::new();
     let mut buf = [0u8; 4];
-    while out.len() < 16 {
+    // up to the end of the stream (a block started at the wrong byte may decode for a while)
+    while out.len() < 4096 {
         match rd.read(&mut buf) {
             Ok(0) => break,
             Ok(n) => out.extend_from_slice(&buf[..n]),
             Err(e) => return Some(format!("through a source giving 1 byte per read, reading across the block edge at {edge} failed at {}: {e}", from + out.len() as u64)),
         }
     }
-    let want = &data[from as usize..(from as usize + 16).min(data.len())];
+    let want = &data[from as usize..(from as usize + 4096).min(data.len())];
     if out.len() < want.len() || out[..want.len()] != *want {
-        return Some(format!("through a source giving 1 byte per read, reading from {from} across the block edge at {edge} returned {} bytes ({} identical to the original expected)", out.len(), want.len()));
+        let first_diff = out.iter().zip(want.iter()).position(|(x, y)| x != y);
+        return Some(format!("through a source giving 1 byte per read, reading from {from} across the block edge at {edge} returned {} bytes, {} expected; first byte that differs from the original: {first_diff:?}", out.len(), want.len()));
     }
     None
 }
@@ -371,10 +373,12 @@ fn cmp_read() {
         {
             // (own 2-block stream: independent of the solver's table, so that it also runs when
             //  no witness values could be extracted)
-            let d2 = data_of(BLOCK + 100, 1);
-            let (c2, _) = compress_stream(&d2, 1);
-            if let Some(e) = one_byte_source_scenario(&c2, &d2, BLOCK) {
-                return Some(e);
+            for entropy in [1u64, 2] {
+                let d2 = data_of(BLOCK + 3000, entropy);
+                let (c2, _) = compress_stream(&d2, 1);
+                if let Some(e) = one_byte_source_scenario(&c2, &d2, BLOCK) {
+                    return Some(e);
+                }
             }
         }
         let mut rd = CompressionLayerReader::new(Box::new(RawLayerReader::new(Cursor::new(comp)))).unwrap();
